@@ -37,7 +37,41 @@ impl RunSpec {
     pub fn needs_dump(&self) -> bool {
         matches!(self.callback.as_str(), "csvdump" | "unspentcsvdump" | "balances")
     }
+    /// Spelling of the command line (env entry VERIF_ARGV_FORM of the spec; default 0): 1 long options with `=`, 2 numbers with
+    /// leading zeros, 3 numbers with a plus sign, 4 the options in another order (range and data directory before the coin).
     pub fn argv(&self, data: &Path, dump: &Path) -> Vec<String> {
+        let form: u8 = self.env.iter().find(|(k, _)| k == "VERIF_ARGV_FORM").and_then(|(_, v)| v.parse().ok()).unwrap_or(0);
+        if form != 0 {
+            let num = |n: u64| match form {
+                2 => format!("{:05}", n),
+                3 => format!("+{}", n),
+                _ => n.to_string(),
+            };
+            let mut range: Vec<String> = vec![];
+            if let Some(e) = self.end {
+                if form == 1 { range.push(format!("--end={}", e)) } else { range.extend(["-e".to_string(), num(e)]) }
+            }
+            if let Some(s) = self.start {
+                if form == 1 { range.push(format!("--start={}", s)) } else { range.extend(["-s".to_string(), num(s)]) }
+            }
+            let coin: Vec<String> = if form == 1 { vec![format!("--coin={}", self.coin)] } else { vec!["-c".into(), self.coin.clone()] };
+            let dir: Vec<String> = if form == 1 { vec![format!("--blockchain-dir={}", data.display())] } else { vec!["-d".into(), data.display().to_string()] };
+            let mut a: Vec<String> = vec![];
+            a.extend(range);
+            a.extend(dir);
+            for _ in 0..self.verbosity {
+                a.push("-v".into());
+            }
+            a.extend(coin);
+            if self.verify {
+                a.push("--verify".into());
+            }
+            a.push(self.callback.clone());
+            if self.needs_dump() {
+                a.push(dump.display().to_string());
+            }
+            return a;
+        }
         let mut a: Vec<String> = vec![];
         if self.verify {
             a.push("--verify".into());
